@@ -47,7 +47,10 @@ def audit_files():
 
 @contextlib.contextmanager
 def quiet():
-    with contextlib.redirect_stdout(io.StringIO()):
+    """tamoc prints unit-conversion notes; fsolve/sqrt warn on unstable casts"""
+    import warnings
+    with contextlib.redirect_stdout(io.StringIO()), warnings.catch_warnings(), np.errstate(all='ignore'):
+        warnings.simplefilter('ignore')
         yield
 
 
@@ -304,6 +307,7 @@ def query_state(ctx, rng, p, snap, history, after, lines, pending):
                       {'history': history, 'stored_names': snap['names'], 'f_names': snap['cnames'],
                        'table_shape': list(snap['table'].shape), 'cache_shape': list(snap['cache'].shape)})
     real = []
+    singles = []
     for kind, nl in nls:
         ctx.count('names:' + kind)
         zarr = np.array(zs, dtype=float)
@@ -323,6 +327,25 @@ def query_state(ctx, rng, p, snap, history, after, lines, pending):
             continue
         real.append(big)
         judged = kind != 'dup' and sorted_tab
+        # short batches (0, 2, 3 depths; ndarray or list) against the rows of the long one
+        for L in (0, 2, 3):
+            sub = zs[:L]
+            with quiet():
+                try:
+                    small = np.array(p.get_values(np.array(sub, dtype=float) if rng.random() < 0.7 or L == 0 else list(sub), list(nl)), dtype=float)
+                except Exception as e:
+                    ctx.violation('get-values-raised:' + after, 'get_values raised %s: %s' % (type(e).__name__, e),
+                                  {'history': history, 'query': {'z': sub, 'names': nl}})
+                    continue
+            ctx.evaluations += 1
+            ctx.count('pred:short-batch')
+            if small.shape != (L, len(nl)):
+                ctx.violation('shape:' + after, 'array query does not return (len(z), len(names))',
+                              {'history': history, 'query': {'z': sub, 'names': nl}, 'shape': list(small.shape)})
+            elif not same_table(small, big[:L]):
+                ctx.violation('batch-ne-single:' + after, 'querying many depths at once differs from querying them one at a time',
+                              {'history': history, 'query': {'z': sub, 'names': nl}, 'short_batch': small.tolist(),
+                               'rows_of_long_batch': big[:L].tolist()})
         # single queries (float, list, 1-element array, str name) for a sample of the depths
         pick = range(len(zs)) if len(zs) <= 30 else sorted(rng.sample(range(len(zs)), 30))
         for qi in pick:
@@ -343,6 +366,7 @@ def query_state(ctx, rng, p, snap, history, after, lines, pending):
                                   {'history': history, 'query': {'z': z, 'names': nl}})
                     continue
             one = np.array(one, dtype=float)
+            singles.append((len(real) - 1, qi, how, one))
             ctx.evaluations += 1
             ctx.count('pred:batch-eq-single')
             if one.shape != (len(nl),):
@@ -362,7 +386,7 @@ def query_state(ctx, rng, p, snap, history, after, lines, pending):
         ctx.evaluations += len(zs)
     lines.append(req('Profile.getValues', snap['table'].shape[1], snap['table'], ','.join(snap['names']),
                      snap['zmin'], snap['zmax'], zs, ';'.join(','.join(nl) for _k, nl in nls)))
-    pending.append(('query', {'history': history, 'after': after, 'zs': zs, 'nls': nls, 'real': real}))
+    pending.append(('query', {'history': history, 'after': after, 'zs': zs, 'nls': nls, 'real': real, 'singles': singles}))
 
 
 # ---------------------------------------------------------------------------------------------
@@ -503,6 +527,17 @@ def flush(ctx, lean_ok, lines, pending, stats):
                         ctx.broken.append(('correspondence', 'get_values after ' + info['after'],
                                            'history=%r names(%s)=%r (z, name, model-from-claimed-table, real-cached)=%r'
                                            % ([h['op'] for h in info['history']], nk, nl, bad)))
+            # the single-depth answers against the same model rows
+            for k, qi, how, one in info['singles']:
+                nl = nls[k][1]
+                flat = o[2 * k + 1]
+                row = [flat[qi * len(nl) + j] for j in range(len(nl))]
+                if one.shape != (len(nl),) or not close([float(v) for v in one], row, TOL['gen_vs_source']):
+                    stats['q_bad'] += 1
+                    if stats['q_bad'] <= 3:
+                        ctx.broken.append(('correspondence', 'get_values(single depth) after ' + info['after'],
+                                           'history=%r z=%r call=%s names=%r model=%r real=%r'
+                                           % ([h['op'] for h in info['history']], zs[qi], how, nl, row, one.tolist())))
         elif kind == 'density':
             stats['s_n'] += 1
             model = np.array(o[0], dtype=float)
